@@ -40,8 +40,8 @@ claim("C09", "exploration",
       "All sequences of length 2-3 over 16 templates (7702 set, re-point, clear, wrong nonce, two authorities, repeated authority, self-authorisation, calls into and probes of the delegated account, transactions sent from it, CREATE2 deployment plus calls/probes of the created contract) with authorisation nonces tracked per block; Code and Basic are versioned separately in grevm, so re-point/clear-then-call drivers are also explored at fine granularity.",
       "DESIGN.md §4 C09", SCHED_NOTE)
 claim("C11", "exploration",
-      "bounded exhaustive enumeration of blocks mixing custom-precompile calls with ordinary transactions x deviation-bounded schedule DFS, oracle = in-order stock revm with the same adapters installed",
-      "Eight capability-restricted test precompiles (read twice, write, read-write-read, set balance, mutate-in-static-and-ignore, ignore-a-fault, fatal-if-zero, panic) are called directly, through CALL/STATICCALL/CALL-then-REVERT relays and interleaved with ordinary writes to the same slots, balances and the beneficiary; outcomes (which carry the precompiles' own read observations and gas) and bundles must equal the in-order reference on both the parallel and the sequential path.",
+      "bounded exhaustive enumeration of blocks mixing custom-precompile calls with ordinary transactions x deviation-bounded schedule DFS, oracle = in-order stock revm running the same precompile bodies behind the harness's own facade and adapter (independent of src/precompile.rs)",
+      "Eleven capability-restricted test precompiles (read twice, write, read-write-read, set balance, mutate-in-static-and-ignore, ignore-a-fault, map-a-read-fault-to-a-halt, map-a-refused-write-to-a-fatal-error, write-then-halt, fatal-if-zero, panic), each written once against a four-method facade trait and installed in grevm through the production facade/adapter and in the reference through an independent re-statement of the contract over stock Alloy, are called directly, through CALL/STATICCALL/CALL-then-REVERT relays and interleaved with ordinary writes to the same slots, balances and the beneficiary; outcomes (which carry the precompiles' own read observations and gas) and bundles must equal the in-order reference on both the parallel and the sequential path.",
       "DESIGN.md §4 C11", SCHED_NOTE)
 claim("C14", "exploration",
       "stateless model checking: deviation-bounded DFS over 2-3 concurrent entry-point callers of one Scheduler",
